@@ -28,4 +28,6 @@ sys.exit(1 if missing else 0)
 PY
 rc=$?
 rm -f "$OUT"
+# the suite itself leaves this file in the repository root
+rm -f "$REPO/compat_corpus.py"
 exit $rc
